@@ -39,6 +39,17 @@ def gen_sfc():
         raise Fail("expected Partition impls of HilbertCurve for Point2D and Point3D")
     out += "Definition hilbert_max_order_2d : N := %d%%N.\n" % got["Point2D"]
     out += "Definition hilbert_max_order_3d : N := %d%%N.\n" % got["Point3D"]
+    # P::avg for u64 and coupe's never-Equal comparator, as the model transcribes them
+    av = read("src/average.rs")
+    avg_ok = re.search(r"fn avg\(a: Self, b: Self\) -> Self \{\s*\(a & b\) \+ \(a \^ b\) / 2\s*\}", av) is not None \
+        and re.search(r"impl_int!\(u64\);", av) is not None
+    out += "Definition average_u64_is_and_plus_half_xor : bool := %s.\n" % coq_bool(avg_ok)
+    lib = read("src/lib.rs")
+    pc = fn_body(lib, "partial_cmp")
+    pc_ok = pc is not None and re.sub(r"\s+", "", pc) == "{ifa<b{Ordering::Less}else{Ordering::Greater}}"
+    out += "Definition partial_cmp_is_less_or_greater : bool := %s.\n" % coq_bool(pc_ok)
+    wq_search = re.search(r"splits\.binary_search_by\(\|split\| crate::partial_cmp\(&split\.position, p\)\)", wq) is not None
+    out += "Definition quantiles_search_by_partial_cmp : bool := %s.\n" % coq_bool(wq_search)
     # ---- z_curve.rs
     z = read("src/algorithms/z_curve.rs")
     zp = fn_body(z, "z_curve_partition")
@@ -66,7 +77,7 @@ PROP = dict(
     bin="c09",
     run_targets=["Run/RunC09.vo"],
     prop_targets=["Properties/C09.vo"],
-    cases=dict(quick=1600, thorough=12000),
+    cases=dict(quick=1600, thorough=10000),
     release_too=True,
     level="proof",
     rule="three streams: (1) bsearch -- random UNSORTED/sorted/constant u64 arrays (len 0..40) and keys, slice::binary_search and "
